@@ -1,6 +1,6 @@
 // C13: all ways of reading one file agree (BMP, PNM, TARGA through FILE* / file name).
 // Compile-time shape: FORMAT, MODE (1 partial read == crop, 2 read_and_convert == color_convert of the native read, 3 read_view into
-// a pre-allocated view == read_image and writes nothing outside it, 4 file name == FILE*, 8 std::istream == FILE*, 9 scanline reader row after skipped rows == image row, 10 read_image into any_image == read_image, 5 read_image_info == dimensions of read_image,
+// a pre-allocated view == read_image and writes nothing outside it, 4 file name == FILE*, 8 std::istream == FILE*, 9 scanline reader row after skipped rows == image row, 10 read_image into any_image == read_image, 11 view smaller than the requested sub-rectangle rejected, 5 read_image_info == dimensions of read_image,
 // 6 destination view smaller than the region -> exception and destination untouched), PIX (native pixel type), CPIX (conversion target).
 // Run-time-constant shape: vp_param(0) = file length, 1..11 = the format's header fields (io.hpp), 12,13 = image width,height,
 // 14..17 = sub-rectangle x0,y0,dx,dy.  Symbolic: pixel data and all non-structural header bytes, probed coordinates.
@@ -135,6 +135,23 @@ extern "C" void h_agree(void) {
             vp_assume(x < W && y < H);
             vp_assert(gil::const_view(*I)(x, y) == gil::view(R)(x, y), "agree.any_image_pixels");
         }
+    }
+#elif MODE == 11
+    // a destination view one row (vp_param(18) == 0) or one column (== 1) smaller than the requested sub-rectangle is rejected with an
+    // exception and nothing is written: not inside the view, not around it (the view lies inside a larger image filled with a background)
+    {
+        int x0 = vp_param(14), y0 = vp_param(15), dx = vp_param(16), dy = vp_param(17);
+        int vw = vp_param(18) == 1 ? dx - 1 : dx, vh = vp_param(18) == 0 ? dy - 1 : dy;
+        img_t D(W + 2, H + 2);
+        pix_t bg; vp_fill(&bg, sizeof bg);
+        gil::fill_pixels(gil::view(D), bg);
+        bool threw = false;
+        try { FILE* fp = (FILE*)vp_fopen_read();
+              gil::read_view(fp, gil::subimage_view(gil::view(D), 1, 1, vw, vh), gil::image_read_settings<tag_t>(gil::point_t(x0, y0), gil::point_t(dx, dy))); }
+        catch (std::ios_base::failure const&) { threw = true; }
+        vp_assert(threw, "agree.too_small_view_for_sub_rectangle_rejected");
+        int gx = vp_range(0, 9); int gy = vp_range(0, 5); vp_assume(gx < W + 2 && gy < H + 2);
+        vp_assert(gil::view(D)(gx, gy) == bg, "agree.rejected_sub_rectangle_read_writes_nothing");
     }
 #elif MODE == 6
     img_t D(W, H);
